@@ -173,6 +173,35 @@ func panicArgKey(w *World, e ast.Expr) string {
 		}
 		return strings.Join(f, "_")
 	}
+	// a local variable: name it by where its value comes from, not by what it
+	// is called (`if r := recover(); r != nil { … panic(r) }`)
+	if id, ok := ast.Unparen(e).(*ast.Ident); ok {
+		if _, pk := w.pathAt(id.Pos()); pk != nil {
+			if v, ok := pk.TypesInfo.Uses[id].(*types.Var); ok && !v.IsField() && v.Parent() != pk.Types.Scope() {
+				fromRecover := false
+				for _, f := range pk.Syntax {
+					if f.Pos() <= v.Pos() && v.Pos() <= f.End() {
+						ast.Inspect(f, func(n ast.Node) bool {
+							as, ok := n.(*ast.AssignStmt)
+							if !ok || len(as.Lhs) != 1 || len(as.Rhs) != 1 {
+								return true
+							}
+							if lid, ok := as.Lhs[0].(*ast.Ident); ok && pk.TypesInfo.Defs[lid] == v {
+								if call, ok := as.Rhs[0].(*ast.CallExpr); ok && IsBuiltinCall(pk, call, "recover") {
+									fromRecover = true
+								}
+							}
+							return true
+						})
+					}
+				}
+				if fromRecover {
+					return "recovered-value"
+				}
+				return "local:" + types.TypeString(v.Type(), func(*types.Package) string { return "" })
+			}
+		}
+	}
 	return strings.ReplaceAll(w.Src(e), " ", "")
 }
 
@@ -220,7 +249,7 @@ func rulePANIC1(c *Ctx) {
 		"Parser.error/bailout{}": {"recovered", "recovered by the deferred function of ParseFile", func(c *Ctx, ps panicSite) (bool, string) {
 			return premiseBailout(c)
 		}},
-		"Parser.ParseFile/e":                          {"reraise", "re-raises a panic that is not a bailout (nothing is swallowed)", nil},
+		"Parser.ParseFile/recovered-value":            {"reraise", "re-raises a panic that is not a bailout (nothing is swallowed)", nil},
 		"NewScanner/file_size_(%d)_does":              {"guarded", "every NewParser call passes a SourceFile made by AddFile(_, -1, len(src)) for the same src", ruleNamePremise("NEWPARSER")},
 		"SourceFileSet.AddFile/illegal_base_or_size":  {"guarded", "every AddFile call passes base -1 and a len(...) size", ruleNamePremise("NEWPARSER")},
 		"SourceFileSet.AddFile/offset_overflow_(>_2G": {"unreachable", "needs more than 2^63 bytes of source in one file set on the supported 64-bit targets", nil},
